@@ -6,6 +6,7 @@ import (
 	"strings"
 
 	"kvassverif/internal/core"
+	"kvassverif/internal/e7"
 )
 
 // SanitizeInitial drops initial placements of oversized targets.
@@ -82,6 +83,7 @@ func init() {
 		Rule: "closed loop: real coordinator + real sidecars over loopback HTTP + simulated Prometheus per shard (re-reads the generated file, scrapes through the proxy, head series with 0 or 3 rounds of residue) + simulated StatefulSet (new pods ready after 0-2 cycles, volume kept or not) + target farm; " +
 			"case = world (head limit on/off, min 0-2, max 8, idle time 0 / 1 ns / 1000 h, 2-8 targets of sizes {1..120} some oversized or unknown to the explorer, 1-3 initial shards, initial placement empty / sane / all-on-one with duplicates / pending transfers written into the stores) + a perturbed phase of 4-11 cycles with growth below the limits, targets added and removed and 0-4 scrape rounds per shard between cycles, then a quiet phase; " +
 			"bounded restatement: within B = 10 + 4*T + 3*min(max,8) quiet cycles (3 scrape rounds on every shard after each) a cycle exists after which every healthy fitting target is listed by exactly one sidecar in normal state, nothing is in transfer, no oversized target is listed, and sidecar lists and requested scale stay identical for 5 further cycles; per cycle: all shards in sync + eligible target unplaced => last requested scale > current (below max); " +
+			"plus 4/32 runs of the REAL processes (e7): the `kvass coordinator` binary with a static shard file, its own discovery manager, explorer and API, three `kvass sidecar` binaries, a simulated Prometheus per shard and a target farm; targets are added/removed through the coordinator's configuration file and /-/reload; convergence is bounded in coordination cycles counted at a reverse proxy in front of the sidecar APIs, a wall-clock watchdog only makes a run inconclusive; " +
 			"a fitting target may stay unscraped in the judged state only if max-shard is reached and no shard has room for it next to what it holds (the property presupposes enough allowed shards; counted); one workload in six drains all targets early and refills late; " +
 			"non-trivial = world with >= 2 shards at some time and >= 1 move or scale event; distinct = hash of the scenario",
 		Assumptions: []string{
@@ -89,13 +91,11 @@ func init() {
 			"the explorer is a stub with the real one's sharing semantics (C20 covers the real explorer)",
 			"B was calibrated on the repaired tree (largest observed convergence cycle is recorded in evidence under distinct_observed.convergence_cycle) and is fixed in the code",
 		},
-		NumCases: func(tier string) int {
-			if tier == "thorough" {
-				return 20000
-			}
-			return 800
-		},
+		NumCases: func(tier string) int { return c03Base(tier) + e7.Cases(tier) },
 		Run: func(w *core.WorkerCtx, idx int) *core.CaseResult {
+			if base := c03Base(w.Tier); idx >= base {
+				return e7.Run(w, idx-base, "C03")
+			}
 			r := core.NewRng(w.Seed, 0xC03, uint64(idx))
 			spec := GenSpec(r)
 			SanitizeInitial(&spec)
@@ -118,6 +118,13 @@ func init() {
 		CaseTimeout:   300e9,
 		MinNontrivial: 20,
 	})
+}
+
+func c03Base(tier string) int {
+	if tier == "thorough" {
+		return 20000
+	}
+	return 800
 }
 
 func head(l []string, n int) []string {
@@ -255,6 +262,7 @@ func init() {
 			"fault alphabet injected at harness-owned boundaries, each armed for exactly the cycle(s) stated: target POST not delivered, POST delivered but answer lost, sidecar restart from its store, shard not ready for 1-2 cycles, status GET failing 1-2 cycles, runtime GET failing, config hash out of sync with rejected push for 1-2 cycles, tail shard removed while holding targets (+ late new shards via the schedule); " +
 			"enumeration: EVERY placement of one fault (11 variants x 8 cycles x shard 0..2) on four schedules (thorough: all six), a strided third on the others, 200 seed-sampled pairs (thorough: every pair on the three relief schedules + 3000 sampled triples); after the last fault the C03 predicate must be reached within B quiet cycles and stay for 5; " +
 			"plus the restart fault on the REAL `kvass sidecar` process (8 / 64 cases, configuration pushed or from --config.file): assigned, killed, started twice more on the same volume, configuration pushed again as the coordinator would, no targets posted - the file given to Prometheus must list exactly the resumed targets in every life; " +
+			"plus 4/32 runs of the real processes (real coordinator binary, three real sidecar binaries) with a sidecar killed and restarted, the coordinator killed and restarted, or a shard unreachable for five cycles in the middle; " +
 			"non-trivial = a fault was really applied (or the control); distinct = (schedule, fault placements)",
 		Assumptions: []string{
 			"faults are injected in the harness' wrappers around the real api.Get/api.Post, in the simulated StatefulSet and by rebuilding the sidecar on its store; a fault that cannot apply (no such shard at that time) is recorded as not applied",
@@ -262,13 +270,20 @@ func init() {
 		},
 		NumCases: func(tier string) int {
 			if tier == "thorough" {
-				return len(get(tier, 1)) + c06RealThorough
+				return len(get(tier, 1)) + c06RealThorough + e7.Cases(tier)
 			}
-			return len(get(tier, 1)) + c06RealQuick
+			return len(get(tier, 1)) + c06RealQuick + e7.Cases(tier)
 		},
 		Run: func(w *core.WorkerCtx, idx int) *core.CaseResult {
 			cs := get(w.Tier, w.Seed)
 			if idx >= len(cs) {
+				nr := c06RealQuick
+				if w.Tier == "thorough" {
+					nr = c06RealThorough
+				}
+				if k := idx - len(cs); k >= nr {
+					return e7.Run(w, k-nr, "C06") // real processes with a fault in the middle
+				}
 				return runC06Real(w, idx-len(cs))
 			}
 			c := cs[idx]
